@@ -38,10 +38,26 @@ Proof.
   - destruct r as [v|e]; [|destruct e]; cbn; auto.
 Qed.
 
+Lemma set_gen_synced k0 m g s : synced k0 m -> synced k0 (set_gen m g s).
+Proof. unfold synced, kern_of, set_gen. cbn. auto. Qed.
+
+Lemma add_gen_synced k0 m s : synced k0 m -> synced k0 (m <| gens := gens m ++ [s] |>).
+Proof. unfold synced, kern_of. cbn. auto. Qed.
+
+Ltac synced_tac H :=
+  cbn;
+  repeat first [ exact H
+               | apply set_gen_synced
+               | apply set_act_synced
+               | apply add_gen_synced
+               | apply set_result_synced ].
+
 Lemma step1_synced k0 cur m md c outer : synced k0 m -> sres_synced k0 (step1 cur m md c outer).
 Proof.
   intros H. unfold step1. destruct md as [p|v|e].
-  - destruct p as [v|e|f k| |p k|p h|s body|b|f]; cbn; auto.
+  - destruct p as [v|e|f k| |p k|p h|s body|b|f|body|g|v|g].
+    + synced_tac H.
+    + synced_tac H.
     + destruct (f (ob m) cur) as [o' ops sp r] eqn:E.
       assert (Hs : synced k0 (add_acts (m <| ob := set_kern o' (kapply_all (kern (ob m)) ops) |>
                                          <| klog := klog m ++ ops |>) sp)).
@@ -49,18 +65,30 @@ Proof.
         change (fold_left kapply (klog m ++ ops) k0) with (kapply_all k0 (klog m ++ ops)).
         rewrite kapply_all_app. rewrite <- H. reflexivity. }
       destruct r; cbn; exact Hs.
-    + destruct outer; cbn; apply set_act_synced; exact H.
-    + destruct (nth_error (acts m) b) as [[p'|st'| |]|]; cbn; auto using set_act_synced.
-  - destruct (c_stack c) as [|[k|h|body] st'].
+    + destruct outer; synced_tac H.
+    + synced_tac H.
+    + synced_tac H.
+    + synced_tac H.
+    + destruct (nth_error (acts m) b) as [[p'|st'| |]|]; synced_tac H.
+    + synced_tac H.
+    + synced_tac H.
+    + destruct (nth_error (gens m) g) as [[p'|fs| |]|]; synced_tac H.
+    + destruct (split_gen (c_stack c) []) as [[[above [k|h|body|g|g]] below]|]; synced_tac H.
+    + destruct (nth_error (gens m) g) as [[p'|fs| |]|]; synced_tac H.
+  - destruct (c_stack c) as [|[k|h|body|g|g] st'].
     + apply finish_ctx_synced. exact H.
-    + cbn. exact H.
-    + cbn. exact H.
-    + destruct v; cbn; exact H.
-  - destruct (c_stack c) as [|[k|h|body] st'].
+    + synced_tac H.
+    + synced_tac H.
+    + destruct v; synced_tac H.
+    + synced_tac H.
+    + synced_tac H.
+  - destruct (c_stack c) as [|[k|h|body|g|g] st'].
     + apply finish_ctx_synced. exact H.
-    + cbn. exact H.
-    + cbn. exact H.
-    + cbn. exact H.
+    + synced_tac H.
+    + synced_tac H.
+    + synced_tac H.
+    + synced_tac H.
+    + synced_tac H.
 Qed.
 
 Lemma exec_synced k0 fuel : forall cur m md c outer,
